@@ -53,7 +53,7 @@ APPL = {
 
 SCENARIOS = ["loop", "basic", "tcp", "tcp_big", "pipe", "pipe_big", "tcp_refused", "tcp_many", "tcp_shed", "connect_fail", "udp",
              "fs_sync", "fs_async", "fs_event", "fs_poll", "spawn", "spawn_fail", "spawn_many", "signal", "signal_close",
-             "dns", "os", "work", "pairs", "ipc", "sysinfo"]
+             "dns", "os", "work", "pool:1", "pool:4", "pool:5", "pool:8", "pool:12", "pool:128", "pairs", "ipc", "sysinfo"]
 QUICK_SKIP_HEAVY = {"tcp_big", "pipe_big"}        # quick: sampled more thinly (hundreds of reads)
 NOT_MODELLED = ["uv_interface_addresses", "uv_cpu_info", "uv_getnameinfo", "uv_fs_* worker-side operations",
                 "uv_pipe_bind/uv_pipe_connect", "uv_tcp_* (bind/listen/connect)", "uv_udp_* except uv_udp_send",
@@ -375,7 +375,7 @@ def monitor(scen, plan, kind, ref, out, resolver):
         return ("spin", "the run made more than 60000 allocation/system calls without finishing (%s): the loop spins" % (sp[0] if sp else "?"))
     if status != "EXIT0":
         top = ""
-        fm = re.findall(r"#\d+ 0x[0-9a-f]+ in (\w+) (/repo/src/\S+)", dg)
+        fm = re.findall(r"#\d+ 0x[0-9a-f]+ in (\w+) (\S*/src/\S+)", dg)
         if fm:
             top = "%s %s" % fm[0]
         head = dg.split("~")[0][:160]
@@ -425,6 +425,14 @@ def monitor(scen, plan, kind, ref, out, resolver):
     for k, v, r in devs:
         if not ERRLIKE.match(v) and not errvals:       # after a reported error later values are consequences
             probs.append(("wrong_value", "%s=%s where the fault-free run has %s (not an error code)" % (k, v, r)))
+    if scen.startswith("pool:") and "info.workers" in m:
+        # the worker table: UV_THREADPOOL_SIZE threads, or the 4 static slots when its allocation failed
+        want = int(scen.split(":")[1])
+        table_failed = want > 4 and plan.split(";")[0] == "at:M.malloc#0=ENOMEM"
+        got = int(m["info.workers"][0])
+        if got != (4 if table_failed else want):
+            probs.append(("pool_size", "%d worker threads were started with UV_THREADPOOL_SIZE=%d%s" %
+                          (got, want, " although the allocation of the thread table failed (only the 4 static slots exist)" if table_failed else "")))
     if kind == "EINTR" and scen == "signal_close" and re.match(r"at:M\.write#", plan):
         for k in ("info.signal_delivered", "info.signal_delivered2"):
             if m.get(k) != ref.get(k):
@@ -447,7 +455,7 @@ def monitor(scen, plan, kind, ref, out, resolver):
                       "missing %s extra %s" % (lost[:4], extra[:4])))
     if not probs:
         return None
-    prio = ["acct", "spin", "loop_not_closable", "no_completion", "eintr_not_transparent", "wrong_value", "lost_event",
+    prio = ["acct", "pool_size", "spin", "loop_not_closable", "no_completion", "eintr_not_transparent", "wrong_value", "lost_event",
             "fdleak", "fdlost", "memleak", "lsan"]
     probs.sort(key=lambda p_: (prio.index(p_[0]) if p_[0] in prio else len(prio), p_[1]))
     return (probs[0][0], "; ".join(t for _, t in probs[:3]))
@@ -796,7 +804,11 @@ def main():
     for s in SCENARIOS:
         if s not in refs:
             continue
-        for (pl, nm, kind, api) in single_plans(refpts[s], chk.rng, thorough, s in QUICK_SKIP_HEAVY):
+        pts_ = refpts[s]
+        if s.startswith("pool:") and not thorough:
+            # quick tier: the faults of the start-up itself (the first uv_queue_work); the rest of these runs is scenario "work"
+            pts_ = [p_ for p_ in pts_ if p_[0] == "M" and p_[4] == "queue_work"]
+        for (pl, nm, kind, api) in single_plans(pts_, chk.rng, thorough, s in QUICK_SKIP_HEAVY or s.startswith("pool:")):
             plans.append((s, pl, kind, api, nm))
     # --- fault-sequence shapes beyond single faults ---------------------------------------------
     repeat_of = {}
